@@ -127,7 +127,7 @@ pub fn build_mh32(c: &Value) -> MetropolisHastings<f32, f32, Gaussian2D<f32>, Is
 }
 
 /// initial states: "same_init": all chains start at one common point; else init_with_seed(init_seed)
-pub fn init_states<T: num_traits::Float + num_traits::FromPrimitive>(c: &Value, dim: usize) -> Vec<Vec<T>> {
+pub fn init_states<T: num_traits::Float + num_traits::FromPrimitive + Send>(c: &Value, dim: usize) -> Vec<Vec<T>> {
     let n_chains = us(c, "n_chains");
     if c["same_init"].as_bool().unwrap_or(false) {
         vec![(0..dim).map(|k| T::from_f64(0.25 + k as f64).unwrap()).collect(); n_chains]
@@ -195,11 +195,43 @@ where
     }
 }
 
+/// "restart": a short pilot run, then the public `positions` field is replaced by far-away points and the real run follows
+/// (a sampler must not remember anything about the points it has left)
+fn restart_hmc<T, B, G>(s: &mut HMC<T, B, G>, c: &Value)
+where
+    T: num_traits::Float + burn::tensor::ElementConversion + burn::tensor::Element + rand_distr::uniform::SampleUniform
+        + num_traits::FromPrimitive + num_traits::FloatConst + std::fmt::Debug,
+    B: AutodiffBackend,
+    G: mini_mcmc::distributions::BatchedGradientTarget<T, B> + std::marker::Sync,
+    rand_distr::StandardNormal: rand::distr::Distribution<T>,
+    rand_distr::StandardUniform: rand_distr::Distribution<T>,
+{
+    if !c["restart"].as_bool().unwrap_or(false) {
+        return;
+    }
+    let _ = s.run(5, 0);
+    let [nc, dim] = s.positions.dims();
+    let pts: Vec<f32> = (0..nc * dim).map(|k| if k % 2 == 0 { 6.0 + (k / 2) as f32 * 0.25 } else { -5.0 }).collect();
+    s.positions = Tensor::<B, 1>::from_floats(pts.as_slice(), &Default::default()).reshape([nc, dim]);
+}
+
 /// Builds the sampler named by the spec and runs run / run_progress once.
 pub fn run_spec(c: &Value) -> Out {
     let (n, d) = (us(c, "n"), us(c, "d"));
     let progress = c["progress"].as_bool().unwrap_or(false);
     match (strf(c, "kind"), strf(c, "f")) {
+        // the seeded initialiser itself (n_chains rows, n columns), as one [rows, 1, cols] array
+        ("init", f) => {
+            let (rows, cols) = (us(c, "n_chains"), n);
+            let seed = opt_seed(c).unwrap_or(42);
+            if f == "f32" {
+                let v: Vec<Vec<f32>> = init_with_seed(rows, cols, seed);
+                Out { shape: vec![rows, 1, cols], bits: v.iter().flatten().map(|x| x.to_bits() as u64).collect(), is32: true }
+            } else {
+                let v: Vec<Vec<f64>> = init_with_seed(rows, cols, seed);
+                Out { shape: vec![rows, 1, cols], bits: v.iter().flatten().map(|x| x.to_bits()).collect(), is32: false }
+            }
+        }
         ("mh", "f64") => {
             let mut s = build_mh64(c);
             arr_f64(&if progress { s.run_progress(n, d).unwrap().0 } else { s.run(n, d).unwrap() })
@@ -214,10 +246,12 @@ pub fn run_spec(c: &Value) -> Out {
         }
         ("hmc", "f32") => {
             let mut s = build_hmc::<f32, B32>(c);
+            restart_hmc(&mut s, c);
             tensor_out(&if progress { s.run_progress(n, d).unwrap().0 } else { s.run(n, d) })
         }
         ("hmc", "f64") => {
             let mut s = build_hmc::<f64, B64>(c);
+            restart_hmc(&mut s, c);
             tensor_out(&if progress { s.run_progress(n, d).unwrap().0 } else { s.run(n, d) })
         }
         ("hmc", "f64b32") => {
